@@ -623,6 +623,8 @@ fn oracles_on_input<T: Reg>(cx: &mut Cx, name: &str, inp: &[u8], r: &DRes<T>) {
 			// a reader with short reads, an input of unknown length
 			for (k, a) in [("decode_from_bytes", from_bytes::<T>(inp)), ("ioreader-3", dec_reader::<T>(inp, 3)), ("unknown-len", dec_rec::<T>(inp, false).0)] {
 				cx.oracle.check(!matches!(a, DRes::Panic), "decode-panic", || format!("{}\tvia={k}", rp()));
+				// ... and the accept / reject decision and the value are those of the slice decoder
+				cx.oracle.check(r.agrees(&a), "verdict-depends-on-input-kind", || format!("{}\tvia={k}", rp()));
 			}
 			if let DRes::Ok(v, c) = r {
 				// what is accepted re-encodes to a string that decodes to the same value with the
